@@ -31,8 +31,59 @@ impl Default for RunCfg {
     }
 }
 
-type Pubc = PublisherClient<Routes>;
-type Subc = SubscriberClient<Routes>;
+type Pubc = PublisherClient<Wire>;
+type Subc = SubscriberClient<Wire>;
+
+/// The in-process "wire": the tonic Routes service plus one correction. tonic's server does
+/// not escape '%' when it writes a status message into the grpc-message header, and tonic's
+/// client turns a message it cannot percent-decode into code UNKNOWN. Deltio echoes request
+/// fields in its messages, so a field containing e.g. "%aA" would make this harness's client
+/// report UNKNOWN although the status on the wire is INVALID_ARGUMENT. The wrapper strips '%'
+/// from grpc-message (headers and trailers) so that the client reports the code that was sent.
+#[derive(Clone)]
+pub struct Wire(Routes);
+
+fn sanitize_headers(h: &mut http::HeaderMap) {
+    if let Some(v) = h.get("grpc-message") {
+        if v.as_bytes().contains(&b'%') {
+            let cleaned: Vec<u8> = v.as_bytes().iter().cloned().filter(|b| *b != b'%').collect();
+            if let Ok(nv) = http::HeaderValue::from_bytes(&cleaned) {
+                h.insert("grpc-message", nv);
+            }
+        }
+    }
+}
+
+impl tower::Service<http::Request<tonic::body::BoxBody>> for Wire {
+    type Response = http::Response<tonic::body::BoxBody>;
+    type Error = Box<dyn std::error::Error + Send + Sync>;
+    type Future = BoxFuture<'static, Result<Self::Response, Self::Error>>;
+
+    fn poll_ready(&mut self, cx: &mut std::task::Context<'_>) -> std::task::Poll<Result<(), Self::Error>> {
+        tower::Service::<http::Request<tonic::body::BoxBody>>::poll_ready(&mut self.0, cx)
+    }
+
+    fn call(&mut self, req: http::Request<tonic::body::BoxBody>) -> Self::Future {
+        use http_body_util::BodyExt;
+        let fut = self.0.call(req);
+        async move {
+            let resp = fut.await?;
+            let (mut parts, body) = resp.into_parts();
+            sanitize_headers(&mut parts.headers);
+            let body = body
+                .map_frame(|f| match f.into_trailers() {
+                    Ok(mut t) => {
+                        sanitize_headers(&mut t);
+                        http_body::Frame::trailers(t)
+                    }
+                    Err(f) => f,
+                })
+                .boxed_unsync();
+            Ok(http::Response::from_parts(parts, body))
+        }
+        .boxed()
+    }
+}
 
 #[derive(Clone)]
 struct Del {
@@ -568,6 +619,108 @@ impl Interp {
         self.qp().await;
     }
 
+    /// Renders the complete observable state: every listing, every subscription resource,
+    /// the subscriptions of every known topic, and the stats of every known subscription.
+    /// Uses unrecorded calls so that the trace and the model are not disturbed.
+    pub async fn snapshot(&mut self) {
+        let mut out = String::new();
+        let mut p = self.p.clone();
+        let mut s = self.s.clone();
+        for proj in ["projects/p0", "projects/p1", "projects/zz"] {
+            let mut token = String::new();
+            out.push_str(&format!("topics {}:", proj));
+            for _ in 0..100 {
+                match p.list_topics(ListTopicsRequest { project: proj.into(), page_size: 1000, page_token: token.clone() }).await {
+                    Ok(r) => {
+                        let r = r.into_inner();
+                        for t in r.topics {
+                            out.push_str(&format!(" {}", t.name));
+                        }
+                        if r.next_page_token.is_empty() {
+                            break;
+                        }
+                        token = r.next_page_token;
+                    }
+                    Err(e) => {
+                        out.push_str(&format!(" !{}", e.code() as i32));
+                        break;
+                    }
+                }
+            }
+            out.push('\n');
+            let mut token = String::new();
+            out.push_str(&format!("subs {}:", proj));
+            for _ in 0..100 {
+                match s.list_subscriptions(ListSubscriptionsRequest { project: proj.into(), page_size: 1000, page_token: token.clone() }).await {
+                    Ok(r) => {
+                        let r = r.into_inner();
+                        for x in r.subscriptions.iter() {
+                            out.push_str(&format!(" {:?}", sub_view(x)));
+                        }
+                        if r.next_page_token.is_empty() {
+                            break;
+                        }
+                        token = r.next_page_token;
+                    }
+                    Err(e) => {
+                        out.push_str(&format!(" !{}", e.code() as i32));
+                        break;
+                    }
+                }
+            }
+            out.push('\n');
+        }
+        let mut topics = self.known_topics.clone();
+        topics.sort();
+        for t in topics {
+            out.push_str(&format!("attached {}:", t));
+            match p.list_topic_subscriptions(ListTopicSubscriptionsRequest { topic: t.clone(), page_size: 1000, page_token: String::new() }).await {
+                Ok(r) => {
+                    for x in r.into_inner().subscriptions {
+                        out.push_str(&format!(" {}", x));
+                    }
+                }
+                Err(e) => out.push_str(&format!(" !{}", e.code() as i32)),
+            }
+            out.push('\n');
+            // names this run merely heard of but that do not exist say nothing about the state
+            if out.ends_with(": !5\n") {
+                let cut = out[..out.len() - 1].rfind('\n').map(|i| i + 1).unwrap_or(0);
+                out.truncate(cut);
+            }
+        }
+        let (_, sm, reg) = self.app.verif_parts();
+        let mut subs = self.known_subs.clone();
+        subs.sort();
+        for name in subs {
+            let parsed = SubscriptionName::try_parse(&name);
+            let sub = parsed.and_then(|n| sm.get_subscription(&n).ok());
+            match sub {
+                None => {}
+                Some(sub) => {
+                    let fut = sub.get_stats();
+                    tokio::pin!(fut);
+                    let mut res = None;
+                    for _ in 0..400 {
+                        if let std::task::Poll::Ready(r) = futures::poll!(fut.as_mut()) {
+                            res = Some(r);
+                            break;
+                        }
+                        tokio::task::yield_now().await;
+                    }
+                    match res {
+                        Some(Ok(st)) => out.push_str(&format!("stats {}: backlog={} outstanding={} topic={}\n", name, st.backlog_messages_count, st.outstanding_messages_count, st.topic_name)),
+                        _ => out.push_str(&format!("stats {}: stuck\n", name)),
+                    }
+                }
+            }
+        }
+        let mut regs: Vec<String> = reg.entries().into_iter().map(|(n, c)| format!("{}->{}", n, c.endpoint)).collect();
+        regs.sort();
+        out.push_str(&format!("push registry: {:?}\n", regs));
+        self.sh.lock().unwrap().push(EvKind::Snapshot { state: out });
+    }
+
     /// Record the stats of every known subscription (no clock movement).
     async fn qp(&mut self) {
         let (_, sm, _) = self.app.verif_parts();
@@ -669,12 +822,12 @@ impl Interp {
         }
     }
 
-    fn open_stream(&mut self, op: usize, sub: String, max_out: i32) {
+    fn open_stream(&mut self, op: usize, sub: String, max_out: i64) {
         let call = self.new_call(op, Req::StreamOpen { sub: sub.clone(), max_out });
         let (tx, rx) = mpsc::unbounded_channel::<StreamingPullRequest>();
         let _ = tx.send(StreamingPullRequest {
             subscription: sub.clone(),
-            max_outstanding_messages: max_out as i64,
+            max_outstanding_messages: max_out,
             stream_ack_deadline_seconds: 10,
             ..Default::default()
         });
@@ -854,7 +1007,7 @@ impl Interp {
             }
             Op::StreamOpen { s, max_out } => {
                 self.note_names(Some(&s.name()), None);
-                self.open_stream(i, s.name(), *max_out);
+                self.open_stream(i, s.name(), *max_out as i64);
                 // let the open reach the handler
                 yields(4).await;
             }
@@ -982,6 +1135,55 @@ impl Interp {
                     _ => Req::ListTopicSubs { topic: t.name(), size: *size, token },
                 };
                 self.run_call(i, req, vec![], false).await;
+            }
+            Op::Raw { req, a } => {
+                match req {
+                    Req::Publish { .. } | Req::StreamOpen { .. } => {}
+                    _ => {
+                        self.run_call(i, req.clone(), vec![], *a).await;
+                    }
+                }
+            }
+            Op::RawPublish { topic, n, a } => {
+                let (req, msgs) = self.build_publish(topic.clone(), *n, &Payload::plain());
+                self.run_call(i, req, msgs, *a).await;
+            }
+            Op::StreamOpenRaw { sub, max_out } => {
+                self.open_stream(i, sub.clone(), *max_out);
+                yields(4).await;
+            }
+            Op::StreamRaw { k, subscription, max_out, max_bytes, acks, mod_ids, mod_secs } => {
+                let live: Vec<usize> = (0..self.streams.len()).filter(|j| self.streams[*j].tx.is_some()).collect();
+                if live.is_empty() {
+                    self.sh.lock().unwrap().push(EvKind::Skipped { op: i });
+                    return;
+                }
+                let j = live[*k as usize % live.len()];
+                let call = self.streams[j].call;
+                // recorded as a control message; ids that do not pair up are kept as sent
+                let mods: Vec<(String, i32)> = mod_ids.iter().cloned().zip(mod_secs.iter().cloned()).collect();
+                self.sh.lock().unwrap().push(EvKind::StreamSendRaw {
+                    call,
+                    subscription: subscription.clone(),
+                    max_out: *max_out,
+                    max_bytes: *max_bytes,
+                    acks: acks.clone(),
+                    mod_ids: mod_ids.clone(),
+                    mod_secs: mod_secs.clone(),
+                });
+                let _ = mods;
+                let _ = self.streams[j].tx.as_ref().unwrap().send(StreamingPullRequest {
+                    subscription: subscription.clone(),
+                    max_outstanding_messages: *max_out,
+                    max_outstanding_bytes: *max_bytes,
+                    ack_ids: acks.clone(),
+                    modify_deadline_ack_ids: mod_ids.clone(),
+                    modify_deadline_seconds: mod_secs.clone(),
+                    ..Default::default()
+                });
+            }
+            Op::Snapshot => {
+                self.snapshot().await;
             }
             Op::CheckLists => {
                 for t in self.known_topics.clone() {
@@ -1275,8 +1477,8 @@ pub fn run_case(case: &Case, cfg: &RunCfg) -> Trace {
         }));
         let mut it = Interp {
             sh: sh.clone(),
-            p: PublisherClient::new(routes.clone()),
-            s: SubscriberClient::new(routes.clone()),
+            p: PublisherClient::new(Wire(routes.clone())),
+            s: SubscriberClient::new(Wire(routes.clone())),
             app,
             pending: Vec::new(),
             streams: Vec::new(),
